@@ -273,6 +273,10 @@ impl Run {
                 TxOut { ok: true, ..Default::default() }
             }
             "time" => {
+                // {"dt": n} = n seconds from now (scenario files); the logged call always carries `t`
+                if call.get("t").is_none() {
+                    call["t"] = json!(self.w.now_s() + ju(&call, "dt") as u64);
+                }
                 let t = ju(&call, "t") as u64;
                 if t >= self.w.now_s() {
                     self.w.now_ns = t * 1_000_000_000;
@@ -481,7 +485,17 @@ impl Run {
             }
             "update_config" => {
                 let msg = self.update_config_msg(&call);
-                self.w.tx_execute(&sender, &msg, &[], &tenv)
+                let key = |w: &World| {
+                    let c = proj::cfg_of(w);
+                    (c.pointer("/native_chain_config/staker_address").cloned(), c.pointer("/protocol_chain_config/ibc_channel_id").cloned(),
+                     c.pointer("/protocol_chain_config/ibc_token_denom").cloned())
+                };
+                let before = key(&self.w);
+                let o = self.w.tx_execute(&sender, &msg, &[], &tenv);
+                if o.ok && key(&self.w) != before {
+                    self.w.led.repointed = true;
+                }
+                o
             }
             // ------------------------------------------------------------ treasury contract
             "t_instantiate" => {
